@@ -78,6 +78,8 @@ type Config struct {
 	KeepFees bool
 	// BlockTime is the default virtual time added per block.
 	BlockTime time.Duration
+	// InitialHeight is the height of the first block (default 1).
+	InitialHeight int64
 	// GenesisHook may edit the genesis state before InitChain.
 	GenesisHook func(c *Chain, gs app.GenesisState)
 }
@@ -174,16 +176,20 @@ func New(cfg Config) *Chain {
 	}
 	cp := app.CustomGenesisConsensusParams().ToProto()
 	c.Time = time.Unix(1_700_000_000, 0).UTC()
+	initial := int64(1)
+	if cfg.InitialHeight > 1 {
+		initial = cfg.InitialHeight
+	}
 	if _, err = c.App.InitChain(&abci.RequestInitChain{
 		ChainId:         ChainID,
 		ConsensusParams: &cp,
 		AppStateBytes:   stateBytes,
-		InitialHeight:   1,
+		InitialHeight:   initial,
 		Time:            c.Time,
 	}); err != nil {
 		panic(fmt.Errorf("InitChain: %w", err))
 	}
-	c.Height = 1
+	c.Height = initial
 	c.open()
 	return c
 }
